@@ -470,7 +470,7 @@ def model_states(model, sm=None, gc=1):
     return [str(s) for s in sm.get_alphabet()]
 
 
-def gen_problem(rng, model, ntips=None, ncols=None, ambig=None, scoped=False, bins=1, expm_setting=None, zero_frac=0.05, rooted=None, polytomy=0.25, hmm=False):
+def gen_problem(rng, model, ntips=None, ncols=None, ambig=None, scoped=False, bins=1, expm_setting=None, zero_frac=0.05, rooted=None, polytomy=0.25, hmm=False, tip_scopes=False):
     kind = kind_of(model)
     big = kind in ("codon", "protein")
     ntips = ntips or rng.randint(2, 5 if big else 7)
@@ -505,6 +505,29 @@ def gen_problem(rng, model, ntips=None, ncols=None, ambig=None, scoped=False, bi
         if len(enames) - k >= 2 and rng.random() < 0.5:
             groups.append(enames[k : k + rng.randint(1, len(enames) - k - 1)])
         prob["edge_params"][par] = [[g, round(math.exp(rng.uniform(math.log(0.2), math.log(6.0))), 5)] for g in groups]
+        if tip_scopes and rng.random() < 0.6:
+            # the scope is given the other documented way: two tips whose last common ancestor names a node, plus
+            # stem / clade flags (default: the clade below the node; stem=True alone: only the edge above it; both: both).
+            # The harness works the edge list out on its own tree.
+            def under(n):
+                return [n["name"]] if not n["children"] else [x for c in n["children"] for x in under(c)]
+
+            def below(n):
+                return [x for c in n["children"] for x in [c["name"]] + below(c)]
+
+            cands = [n for n in edges(tree) if len(n["children"]) >= 2]
+            if cands:
+                n = rng.choice(cands)
+                kids = rng.sample(n["children"], 2)
+                a, b = rng.choice(under(kids[0])), rng.choice(under(kids[1]))
+                outside = [t for t in tips(tree) if t not in under(n)]
+                flags = rng.choice([{}, {"stem": True}, {"clade": True}, {"stem": True, "clade": True}, {"stem": False, "clade": True}])
+                stem, clade = flags.get("stem", False), flags.get("clade", not flags.get("stem", False))
+                g = ([n["name"]] if stem else []) + (below(n) if clade else [])
+                if outside and g:
+                    how = dict(flags, tip_names=[a, b], outgroup_name=rng.choice(outside))
+                    prob["edge_params"][par] = [[g, prob["edge_params"][par][0][1]]]
+                    prob["edge_param_how"] = {par: how}
     if bins > 1:
         prob["rate_shape"] = round(rng.uniform(0.2, 3.0), 4)
         if rng.random() < 0.6:  # unequal bin probabilities
@@ -563,8 +586,12 @@ def build_lf(prob, tree_newick=None, aln=None, sm=None):
     for p, v in prob["params"].items():
         lf.set_param_rule(p, init=v)
     for p, groups in prob.get("edge_params", {}).items():
+        how = prob.get("edge_param_how", {}).get(p)
         for g, v in groups:
-            lf.set_param_rule(p, edges=list(g), init=v)
+            if how:
+                lf.set_param_rule(p, init=v, **how)
+            else:
+                lf.set_param_rule(p, edges=list(g), init=v)
     if prob.get("bins", 1) > 1:
         lf.set_param_rule("rate_shape", init=prob["rate_shape"])
         if prob.get("bprobs"):
@@ -572,6 +599,19 @@ def build_lf(prob, tree_newick=None, aln=None, sm=None):
         if prob.get("hmm"):
             lf.set_param_rule("bin_switch", init=prob["hmm"]["switch"])
     return lf
+
+
+def gamma_bin_rates(shape, bprobs):
+    """discrete gamma (mean 1, shape = rate = `shape`): bin k holds the probability mass bprobs[k] of the distribution,
+    in increasing order of rate, and is represented by the median of its slice (the quantile at the slice's midpoint);
+    the representatives are scaled so that their bprobs-weighted mean is exactly one"""
+    from scipy.stats import gamma
+
+    w = np.asarray(bprobs, dtype=float)
+    w = w / w.sum()
+    mid = np.add.accumulate(w) - w / 2
+    med = gamma.ppf(mid, a=shape, scale=1.0 / shape)
+    return med / (med * w).sum()
 
 
 def hmm_forward_lnL(per_bin_cols, bprobs, switch):
